@@ -705,6 +705,32 @@ def run(chk, tier):
     chk.extra["wall_marks_s"] = {k: round(v, 1) for k, v in marks.items()}
 
 
+def replay(d):
+    """bin/verif replay C16 <path>: compile the recorded source again under the recorded options and show what happens."""
+    det = d.get("detail") or {}
+    if not (isinstance(det, dict) and det.get("source") and det.get("cfg")):
+        print("(nothing to re-run for this record: see 'detail')")
+        return 0
+    b = vlib.vbuild()
+    wd = vlib.scratch("c16r")
+    label = det["cfg"]
+    opts = [o for o in label.split(" [")[0].split() if o.startswith("-C")]
+    route = label.split("[")[-1].rstrip("]") if "[" in label else "shipped"
+    open(os.path.join(wd, "p.as"), "w").write(det["source"])
+    kw = {}
+    m = [o for o in opts if o.startswith("-Cidlen=")]
+    if route == "samelimit" and m:
+        info = build_libs(b, (m[0],))
+        kw = {"axllib": info["axllib"], "rt": info["rt"]}
+    res = compile_units(b, wd, [("p", det["source"], True)], opts, **kw)
+    print("options: %s   route: %s" % (" ".join(opts) or "(default)", route))
+    print("phase=%s rc=%s files=%s" % (res["phase"], res["rc"], res.get("cfiles")))
+    print("stdout:\n" + res["out"][:3000])
+    print("stderr:\n" + res["err"][:3000])
+    print("expected stdout:\n" + str(det.get("expected_out")))
+    return 0
+
+
 SELFTEST_NOTES = """
 (filled in after the mutation runs)
 """
